@@ -26,7 +26,7 @@ import (
 const (
 	c05DaemonCalls   = 10
 	c05DaemonCommits = 4
-	c05DaemonWait  = 40 * time.Second
+	c05DaemonWait    = 40 * time.Second
 )
 
 type c05DaemonStart struct {
